@@ -170,6 +170,76 @@ theorem isCorrect_hi_of_wide (c : Interval ℝ) (h : ℝ) (hw : c.wide = true) (
   have := lt_of_lt_of_le (ereal_lt_sub hwd) (EReal.coe_le_coe_iff.2 (by linarith : h - (c.prec + Constants.TINY) ≤ h))
   split_ifs <;> [exact this.le; exact this]
 
+/-- the exact answer of `getAcceptedLimit` to a rejected finite request on a wide interval, and
+which of `limit`, `limit ± TINY` is accepted: on the lower side the bound itself when included,
+one precision step inside when excluded (accepted iff the precision is positive; with precision 0
+`bound + TINY` is); symmetrically on the upper side (where `bound + TINY` is rejected) -/
+theorem alimit_exact (c : Interval ℝ) (v : ℝ) (hw : c.wide = true) (hrej : c.isCorrect v = false) :
+    (c.geV (.fin v) = true ∧ ∃ l, c.lo = .fin l ∧ v ≤ l ∧
+        c.getAcceptedLimit (.fin v) = .fin (if c.inclLo then l else l + c.prec) ∧
+        (c.inclLo = true → c.isCorrect l = true) ∧
+        (c.inclLo = false → 0 < c.prec → c.isCorrect (l + c.prec) = true) ∧
+        (c.inclLo = false → c.prec = 0 → c.isCorrect l = false ∧ c.isCorrect (l + Constants.TINY) = true)) ∨
+    (c.geV (.fin v) = false ∧ ∃ h, c.hi = .fin h ∧ h ≤ v ∧
+        c.getAcceptedLimit (.fin v) = .fin (if c.inclHi then h else h - c.prec) ∧
+        (c.inclHi = true → c.isCorrect h = true) ∧
+        (c.inclHi = false → 0 < c.prec → c.isCorrect (h - c.prec) = true) ∧
+        (c.inclHi = false → c.prec = 0 → c.isCorrect h = false ∧ c.isCorrect (h + Constants.TINY) = false ∧
+            c.isCorrect (h - Constants.TINY) = true)) := by
+  obtain ⟨hp0, hwd⟩ := (wide_iff c).1 hw
+  have hT := TINY_pos
+  have hrejB : c.isCorrectB (.fin v) = false := hrej
+  rcases alimit_spec c v hw hrej with ⟨hg, l, limit, hlo, hvl, hlim, h1, h2, hok⟩ | ⟨hg, h, limit, hhi, hhv, hlim, h1, h2, hok⟩
+  · left
+    refine ⟨hg, l, hlo, hvl, ?_, fun hil => isCorrect_lo_of_wide c l hw hlo hil, ?_, ?_⟩
+    · cases hil : c.inclLo <;> simp [getAcceptedLimit, hrejB, hg, strictLowerBound, hil, hlo, Bound.addS]
+    · intro hil hpos
+      rw [hlo] at hwd; simp only [Bound.toEReal_fin] at hwd
+      rw [isCorrect_iff_bounds']
+      simp only [hil, Bool.false_eq_true, if_false, hlo, Bound.toEReal_fin]
+      have : ((l + c.prec : ℝ) : EReal) < c.hi.toEReal := ereal_coe_add_lt hwd (by linarith)
+      refine ⟨EReal.coe_lt_coe_iff.2 (by linarith), ?_⟩
+      split_ifs <;> [exact this.le; exact this]
+    · intro hil hz
+      rw [hlo] at hwd; simp only [Bound.toEReal_fin] at hwd
+      constructor
+      · rw [Bool.eq_false_iff, Ne, isCorrect_iff_bounds']
+        simp only [hil, Bool.false_eq_true, if_false, hlo, Bound.toEReal_fin]
+        rintro ⟨h3, _⟩; exact lt_irrefl _ h3
+      · rw [isCorrect_iff_bounds']
+        simp only [hil, Bool.false_eq_true, if_false, hlo, Bound.toEReal_fin]
+        have : ((l + Constants.TINY : ℝ) : EReal) < c.hi.toEReal := ereal_coe_add_lt hwd (by linarith)
+        refine ⟨EReal.coe_lt_coe_iff.2 (by linarith), ?_⟩
+        split_ifs <;> [exact this.le; exact this]
+  · right
+    rw [hhi] at hwd; simp only [Bound.toEReal_fin] at hwd
+    have hlo_lt : ∀ a : ℝ, a ≤ c.prec + Constants.TINY → c.lo.toEReal < ((h - a : ℝ) : EReal) := by
+      intro a ha
+      exact lt_of_lt_of_le (ereal_lt_sub hwd) (EReal.coe_le_coe_iff.2 (by linarith))
+    refine ⟨hg, h, hhi, hhv, ?_, fun hiu => isCorrect_hi_of_wide c h hw hhi hiu, ?_, ?_⟩
+    · cases hiu : c.inclHi <;> simp [getAcceptedLimit, hrejB, hg, strictUpperBound, hiu, hhi, Bound.subS]
+    · intro hiu hpos
+      rw [isCorrect_iff_bounds']
+      simp only [hiu, Bool.false_eq_true, if_false, hhi, Bound.toEReal_fin]
+      have := hlo_lt c.prec (by linarith)
+      refine ⟨?_, EReal.coe_lt_coe_iff.2 (by linarith)⟩
+      split_ifs <;> [exact this.le; exact this]
+    · intro hiu hz
+      refine ⟨?_, ?_, ?_⟩
+      · rw [Bool.eq_false_iff, Ne, isCorrect_iff_bounds']
+        simp only [hiu, Bool.false_eq_true, if_false, hhi, Bound.toEReal_fin]
+        rintro ⟨_, h3⟩; exact lt_irrefl _ h3
+      · rw [Bool.eq_false_iff, Ne, isCorrect_iff_bounds']
+        simp only [hiu, Bool.false_eq_true, if_false, hhi, Bound.toEReal_fin]
+        rintro ⟨_, h3⟩
+        have := EReal.coe_lt_coe_iff.1 h3
+        linarith
+      · rw [isCorrect_iff_bounds']
+        simp only [hiu, Bool.false_eq_true, if_false, hhi, Bound.toEReal_fin]
+        have := hlo_lt Constants.TINY (by linarith)
+        refine ⟨?_, EReal.coe_lt_coe_iff.2 (by linarith)⟩
+        split_ifs <;> [exact this.le; exact this]
+
 /-- with both bounds included, `getAcceptedLimit` is `getLimit`: for a rejected request on a wide
 interval it is the (accepted) bound on the request's side -/
 theorem alimit_closed (c : Interval ℝ) (v : ℝ) (hw : c.wide = true) (hcl : c.inclLo = true ∧ c.inclHi = true)
